@@ -34,10 +34,10 @@ PROPS = {
             "condition is absent or true, appends once per row, evaluates every target on that row (R-ROWLOOP, 4 "
             "gate cases executed abstractly); FROM expression AND-ed with WHERE (R-FROMAND, 4 cases). Does not "
             "decide the numeric value of an operator application, regular-expression results or overload "
-            "resolution for nested expressions. The constant a cell computes with is the parameter written at that place: positional placeholders bind in textual order whatever the order clauses are compiled in (R-PLACEHOLDER). R-DIVGUARD and the operator terms of R-OPSEM are decided by interpreting each implementation on terms with a zero and a non-zero divisor: no division by the second operand is evaluated before the zero test, the zero case returns NULL, the other case returns the operation of the operator's name. AND / OR / COALESCE are interpreted on terms for every operand list of length 1-3 over NULL, FALSE, TRUE, zero/empty and other values: the value is that of the truth table (NULL, FALSE or TRUE for AND / OR), operands are evaluated once, left to right, and evaluation stops where the statement says it stops (R-3VL). No evaluator writes state that outlives the row (write census, R-SHARED): a cell is computed from its row alone. R-NULLSTRICT is decided on terms: every NULL / non-NULL operand assignment of every NULL-propagating evaluator class (and every outcome of the comparisons between non-NULL values); a NULL reaches neither the operation nor an ordering comparison nor arithmetic. The function-call evaluator recognises NULL operands by identity (R-EVALALL). AND, OR, literals, `*` and column names compile to the node of that meaning over all their arguments in source order (R-NODEBUILD, handlers interpreted on terms). The scalar functions a cell is computed with are the recorded definitions (R-DEFN, see C18). The source tables hand the scan one row per directive resp. posting, and the null table `#` exactly one NULL row (R-ROWGEN)."),
+            "resolution for nested expressions. The constant a cell computes with is the parameter written at that place: positional placeholders bind in textual order whatever the order clauses are compiled in (R-PLACEHOLDER). R-DIVGUARD and the operator terms of R-OPSEM are decided by interpreting each implementation on terms with a zero and a non-zero divisor: no division by the second operand is evaluated before the zero test, the zero case returns NULL, the other case returns the operation of the operator's name. AND / OR / COALESCE are interpreted on terms for every operand list of length 1-3 over NULL, FALSE, TRUE, zero/empty and other values: the value is that of the truth table (NULL, FALSE or TRUE for AND / OR), operands are evaluated once, left to right, and evaluation stops where the statement says it stops (R-3VL). No evaluator writes state that outlives the row (write census, R-SHARED): a cell is computed from its row alone. R-NULLSTRICT is decided on terms: every NULL / non-NULL operand assignment of every NULL-propagating evaluator class (and every outcome of the comparisons between non-NULL values); a NULL reaches neither the operation nor an ordering comparison nor arithmetic. The function-call evaluator recognises NULL operands by identity (R-EVALALL). AND, OR, literals, `*` and column names compile to the node of that meaning over all their arguments in source order (R-NODEBUILD, handlers interpreted on terms). The scalar functions a cell is computed with are the recorded definitions (R-DEFN, see C18). The source tables hand the scan one row per directive resp. posting, and the null table `#` exactly one NULL row (R-ROWGEN). The operator handlers return the overload of the operator written, applied to the compiled operands in order, whatever the syntax of the operands (R-OPNODE): no operator is rewritten into another one (NOT (a < b) is not a >= b: NOT NULL is TRUE). No evaluator writes to its node while evaluating a row (R-ROWPURE, from the write census; the cache of an uncorrelated subquery is the one confirmed exception)."),
         'assumptions': TRUSTED_STRUCT + TRUSTED_ABSINT[3:],
         'quick': [sxev.rule_nullstrict, evalnodes.rule_divguard, evalnodes.rule_promote, evalnodes.rule_opsem,
-                  sxev.rule_3vl, sx.rule_rowloop, sxk.rule_fromand, sxk.rule_implicitcast, gr.rule_precmatrix, sxst.rule_placeholder, st.rule_shared, sxev.rule_evalall, sxk.rule_nodebuild, sxl.rule_defn, sxt.rule_rowgen],
+                  sxev.rule_3vl, sx.rule_rowloop, sxk.rule_fromand, sxk.rule_implicitcast, gr.rule_precmatrix, sxst.rule_placeholder, st.rule_shared, sxev.rule_evalall, sxk.rule_nodebuild, sxl.rule_defn, sxt.rule_rowgen, sxg.rule_opnode, st.rule_rowpure],
         'thorough': [],
     },
     'C02': {
@@ -51,9 +51,9 @@ PROPS = {
             "faithfulness of the structural node equality used to merge GROUP BY expressions with targets, for all "
             "evaluator classes and all column instances that can meet in one table (R-EQFAITH); grouping references "
             "validated against the domain they are resolved in (R-IDXBOUND) and hidden grouping targets nameless and "
-            "appended (R-HIDDEN). Does not decide numeric values of folds nor hashing/equality of key values. Every aggregate node of a target expression is found, once per occurrence and left to right, by get_columns_and_aggregates (R-AGGCOLLECT): a node left out is never allocated, updated or finalized. R-AGGCLASS decides, on terms, the final state of the slot and the mutations of the accumulator object for every value x slot x order x state-query case of every aggregate class, and initialize / finalize / __call__. EvalNode.__eq__ itself holds iff same class and all __slots__ attributes equal (16 cases on terms). Every operand a node is built with is among what childnodes() yields, for each of the 12 evaluator classes (R-CHILDNODES): an operand kept in a tuple or outside __slots__ hides the aggregates below it. The slot allocator on terms: n allocate() calls return n different indexes, all valid in every store create_store() makes afterwards, and every store is a new list of NULLs (R-ALLOCATOR). An aggregate query that returns after the scan without walking the groups, on a condition that is not about the group container being empty, is a violation (R-AGGPROTO early-return). LIMIT, DISTINCT and ORDER BY act on the groups: with any of them the aggregates are still fed from every selected row of the source table itself (R-AGGPROTO scan), and a grouped query without any aggregate still assigns every selected row to the group of its full key, visible or not (R-AGGPROTO grouping)."),
+            "appended (R-HIDDEN). Does not decide numeric values of folds nor hashing/equality of key values. Every aggregate node of a target expression is found, once per occurrence and left to right, by get_columns_and_aggregates (R-AGGCOLLECT): a node left out is never allocated, updated or finalized. R-AGGCLASS decides, on terms, the final state of the slot and the mutations of the accumulator object for every value x slot x order x state-query case of every aggregate class, and initialize / finalize / __call__. EvalNode.__eq__ itself holds iff same class and all __slots__ attributes equal (16 cases on terms). Every operand a node is built with is among what childnodes() yields, for each of the 12 evaluator classes (R-CHILDNODES): an operand kept in a tuple or outside __slots__ hides the aggregates below it. The slot allocator on terms: n allocate() calls return n different indexes, all valid in every store create_store() makes afterwards, and every store is a new list of NULLs (R-ALLOCATOR). An aggregate query that returns after the scan without walking the groups, on a condition that is not about the group container being empty, is a violation (R-AGGPROTO early-return). LIMIT, DISTINCT and ORDER BY act on the groups: with any of them the aggregates are still fed from every selected row of the source table itself (R-AGGPROTO scan), and a grouped query without any aggregate still assigns every selected row to the group of its full key, visible or not (R-AGGPROTO grouping). Evaluators other than the aggregates keep nothing on the node between rows or groups (R-ROWPURE): HAVING and the targets of every group are evaluated afresh."),
         'assumptions': TRUSTED_STRUCT,
-        'quick': [sxs.rule_aggproto, sxag.rule_aggclass, eqfaith.rule_eqfaith, sxk.rule_idxbound, cr.rule_hidden, sxg.rule_aggcollect, sxev.rule_childnodes, sxs.rule_allocator],
+        'quick': [sxs.rule_aggproto, sxag.rule_aggclass, eqfaith.rule_eqfaith, sxk.rule_idxbound, cr.rule_hidden, sxg.rule_aggcollect, sxev.rule_childnodes, sxs.rule_allocator, st.rule_rowpure],
         'thorough': [sxs.rule_aggproto_deep, sxk.rule_idxbound_deep],
     },
     'C03': {
@@ -88,10 +88,10 @@ PROPS = {
             "type (R-COALESCE, 36 type pairs executed); untyped operands are cast to the other side's type, decimal for "
             "int (R-IMPLICITCAST); in the thorough tier every overload is also run for the subclass operands that the "
             "MRO lookup admits (R-ADMITTED). Decides type conformance of declarations vs. implementations for all overloads; "
-            "does not decide values of dtype `object` nor conformance of ledger data to beancount's annotations. Also: the overload-resolution primitives of types.py (Any equals every class and not the `*` pseudo-type, the strict linearisation, first overload along it) behave as the registry model assumes (R-LOOKUP, 13 cases on terms), and every output column of both scan branches holds the value of its own target (R-ROWLOOP, R-AGGPROTO key layout). A subquery column announces the data type of the inner target whose row position it reads, with hidden, repeated and mixed-case inner names (R-VISFILTER). AND / OR announce bool and evaluate to NULL, FALSE or TRUE whatever the operand types (R-3VL). `x.attr` builds EvalGetter(x, field column, field column datatype) (R-ACCESSNODE); R-GUARDS: a grouping key of a type that cannot be hashed is rejected however it is referenced. Constants announce type(value) exactly, or the dtype they are given (R-CONSTTYPE)."),
+            "does not decide values of dtype `object` nor conformance of ledger data to beancount's annotations. Also: the overload-resolution primitives of types.py (Any equals every class and not the `*` pseudo-type, the strict linearisation, first overload along it) behave as the registry model assumes (R-LOOKUP, 13 cases on terms), and every output column of both scan branches holds the value of its own target (R-ROWLOOP, R-AGGPROTO key layout). A subquery column announces the data type of the inner target whose row position it reads, with hidden, repeated and mixed-case inner names (R-VISFILTER). AND / OR announce bool and evaluate to NULL, FALSE or TRUE whatever the operand types (R-3VL). `x.attr` builds EvalGetter(x, field column, field column datatype) (R-ACCESSNODE); R-GUARDS: a grouping key of a type that cannot be hashed is rejected however it is referenced. Constants announce type(value) exactly, or the dtype they are given (R-CONSTTYPE). A query parameter becomes EvalConstant(value) with no dtype override (R-PLACEHOLDER): what the type checker sees is the exact class of the value executed with."),
         'assumptions': TRUSTED_ABSINT,
         'quick': [dtype.rule_dtype, dtype.rule_typesafe, dtype.rule_renderable, sxg.rule_opresolve, sxk.rule_coalesce,
-                  sxk.rule_implicitcast, sxty.rule_lookup, sxs.rule_aggproto, sx.rule_rowloop, tb.rule_tablefields, cr.rule_visfilter, sxev.rule_3vl, sxk.rule_accessnode, sxg.rule_guards, sxk.rule_consttype],
+                  sxk.rule_implicitcast, sxty.rule_lookup, sxs.rule_aggproto, sx.rule_rowloop, tb.rule_tablefields, cr.rule_visfilter, sxev.rule_3vl, sxk.rule_accessnode, sxg.rule_guards, sxk.rule_consttype, sxst.rule_placeholder],
         'thorough': [dtype.rule_admitted],
     },
     'C05': {
@@ -137,7 +137,7 @@ PROPS = {
         'assumptions': ["TatSu's code generator (5.7.x, the version range pyproject.toml pins) is deterministic and "
                         "faithful to its input grammar", "no BQL text is parsed by the check"],
         'technique': 'translation validation (regenerate and compare syntax trees) + grammar-model analysis',
-        'quick': [gr.rule_regen, gr.rule_precmatrix, gr.rule_astfields, gr.rule_semantics, gr.rule_shadow, gr.rule_keywords, gr.rule_lexlang, gr.rule_fieldonce, gr.rule_clauseorder, st.rule_parsefresh, gr.rule_clauselang],
+        'quick': [gr.rule_regen, gr.rule_precmatrix, gr.rule_astfields, gr.rule_semantics, gr.rule_shadow, gr.rule_keywords, gr.rule_lexlang, gr.rule_fieldonce, gr.rule_clauseorder, st.rule_parsefresh, gr.rule_clauselang, gr.rule_cutsafe],
         'thorough': [gr.rule_lexspec],
     },
     'C07': {
@@ -150,9 +150,9 @@ PROPS = {
             "name, and subquery columns are numbered among the visible targets (R-VISFILTER); `*` expands to names "
             "that are columns of the table, for all 10 tables (R-WILDCARD); the expression text is text[pos:endpos] of "
             "the node's own parse info (R-NAMESLICE); projection to visible indexes (R-PIPELINE). Does not decide that "
-            "the slice equals the expression's text for arbitrary spacing (positions come from TatSu at run time). execute_query returns what execute_select returned (R-QUERYEXEC) and every accepting path of _compile_select returns the EvalQuery built there over this statement's own compiled targets (R-SELECTNODE): there is no second place where a description is made, and no path on which the names of another SELECT are published."),
+            "the slice equals the expression's text for arbitrary spacing (positions come from TatSu at run time). execute_query returns what execute_select returned (R-QUERYEXEC) and every accepting path of _compile_select returns the EvalQuery built there over this statement's own compiled targets (R-SELECTNODE): there is no second place where a description is made, and no path on which the names of another SELECT are published. The target rule of the grammar is `expression [AS identifier]`: an alias is an identifier, so no visible column can have an empty or otherwise falsy name (R-CLAUSELANG on the target and select rules)."),
         'assumptions': TRUSTED_STRUCT,
-        'quick': [cr.rule_hidden, cr.rule_visfilter, cr.rule_wildcard, cr.rule_nameslice, sxs.rule_pipeline, sxs.rule_queryexec, sxp.rule_selectnode],
+        'quick': [cr.rule_hidden, cr.rule_visfilter, cr.rule_wildcard, cr.rule_nameslice, sxs.rule_pipeline, sxs.rule_queryexec, sxp.rule_selectnode, gr.rule_clauselang_target],
         'thorough': [],
     },
     'C08': {
@@ -167,7 +167,7 @@ PROPS = {
             "equality of nested and materialised results in general. IN / NOT IN hand the compiled operands on unmodified, wrap a one-column subquery as a constant list and reject wider ones (R-INOP). Compiling the enclosing SELECT stores nothing into the compiled subquery or its table, for ordered / unordered and plain / aggregate outer queries (R-QUERYFROZEN): FROM (q) runs over the rows q produces by itself, in q's order. `SELECT * FROM (q)` presents one column per visible target of q, in order (R-SUBQNAMES; for an inner query with two targets of the same name the columns collapse: known finding D30)."),
         'assumptions': TRUSTED_STRUCT,
         'quick': [sxst.rule_reentrant, cr.rule_visfilter, eqfaith.rule_eqfaith, sxg.rule_guards, sxev.rule_nullstrict,
-                  sx.rule_subq1d, sxk.rule_inop, cr.rule_wildcard, sxst.rule_queryfrozen, cr.rule_subqnames],
+                  sx.rule_subq1d, sxk.rule_inop, cr.rule_wildcard, sxst.rule_queryfrozen, cr.rule_subqnames, st.rule_rowpure],
         'thorough': [],
     },
     'C09': {
@@ -180,13 +180,13 @@ PROPS = {
             "connection (R-SHARED). Constant folding only behind all-constant operands and, for functions, behind "
             "purity, with purity = neither row nor context passed and no global/clock reads (R-FOLDPURE); positional "
             "placeholders numbered in textual order and read back from where the numbering is kept (R-PLACEHOLDER). "
-            "Does not decide value equality of folded and unfolded evaluation. The census also follows: fields that hold connection objects, locals aliasing objects kept on self, results of `_compile` (which can be the table's own column objects), subscript reads of defaultdict fields of connection objects (a missing key is inserted), one-shot iterators stored on connection objects. The handlers of AND, OR, literals, `*` and column names build their node from the compiled arguments without evaluating anything (R-NODEBUILD): the only places where a constant expression is computed at compile time are the fold sites R-FOLDPURE decides, so a folded value and the per-row value cannot come from two different implementations of AND / OR. Every node of a statement is visited by ast.walk - fields, lists, nested lists, subqueries - exactly once, so every placeholder is counted and bound (R-WALK); a FROM subquery is compiled by the compiler of the enclosing statement, with its parameters and numbering (R-FROMCLAUSE); attaching a ledger leaves the caller's entries as they were (R-ATTACH). Every compilation runs on a new Compiler for the connection at hand (R-COMPILEFN)."),
+            "Does not decide value equality of folded and unfolded evaluation. The census also follows: fields that hold connection objects, locals aliasing objects kept on self, results of `_compile` (which can be the table's own column objects), subscript reads of defaultdict fields of connection objects (a missing key is inserted), one-shot iterators stored on connection objects. The handlers of AND, OR, literals, `*` and column names build their node from the compiled arguments without evaluating anything (R-NODEBUILD): the only places where a constant expression is computed at compile time are the fold sites R-FOLDPURE decides, so a folded value and the per-row value cannot come from two different implementations of AND / OR. Every node of a statement is visited by ast.walk - fields, lists, nested lists, subqueries - exactly once, so every placeholder is counted and bound (R-WALK); a FROM subquery is compiled by the compiler of the enclosing statement, with its parameters and numbering (R-FROMCLAUSE); attaching a ledger leaves the caller's entries as they were (R-ATTACH). Every compilation runs on a new Compiler for the connection at hand (R-COMPILEFN). An ORDER BY / GROUP BY expression is matched to a target by the compiled expression, never by its text (`%s` is the same text whatever is bound to it): R-HIDDEN."),
         'assumptions': TRUSTED_STRUCT + [
             "receiver lifetimes: instances of a class are IMPORT/CONNECTION/EXECUTION objects according to where the class is "
             "instantiated; attributes named entries/options/entry/posting/postings/meta/price_map hold caller-owned ledger data; "
             "parameters named node/query/statement/... in the compiler and cursor are caller-owned",
             "TatSu, beancount and dateutil internals perform no shared writes (summarised, not analysed)"],
-        'quick': [st.rule_inputmut, st.rule_shared, st.rule_foldpure, sxst.rule_placeholder, sxk.rule_nodebuild, sxst.rule_walk, sxk.rule_fromclause, sxt.rule_attach, sxst.rule_compilefn],
+        'quick': [st.rule_inputmut, st.rule_shared, st.rule_foldpure, sxst.rule_placeholder, sxk.rule_nodebuild, sxst.rule_walk, sxk.rule_fromclause, sxt.rule_attach, sxst.rule_compilefn, cr.rule_hidden, sxc.rule_execflow],
         'thorough': [],
     },
     'C10': {
@@ -270,12 +270,12 @@ PROPS = {
             "must be empty (R-SHARED); FROM-clause qualifiers are applied to a copy of the table (R-TABLECOPY); the "
             "balance guard lives in the per-scan row context (R-ONCEPERROW); threadsafety is a valid DB-API level "
             "(R-MODCONST). With nothing shared no interleaving needs exploring. Sharing a cursor between threads is "
-            "outside DB-API level 2 and outside the claim. The census follows locals that alias an object kept on self (a row context created once per connection-owned table and rewound per scan is shared by concurrent scans). parse() runs the statement through a parser object made in that call (R-PARSEFRESH). The census also covers process-wide state reached through the standard library: objects handed out by decimal.getcontext() and the like, calls whose purpose is to change process state (decimal.setcontext, locale.setlocale ...), and stores a module body makes at import into objects of other libraries (decimal.DefaultContext.prec = ...), which take effect per thread. Every connection owns its tables, options and errors (R-CONNECTION: new objects made in __init__, no default-argument or class-level objects); attach() does not change the ledger it is given - the list is shared with every other connection made from it (R-ATTACH attach:input); a mutable default argument that is stored or changed is shared state (census). compile() makes a Compiler of its own for every call (R-COMPILEFN): the current table, the parameters and the placeholder numbering of one statement are never visible to another."),
+            "outside DB-API level 2 and outside the claim. The census follows locals that alias an object kept on self (a row context created once per connection-owned table and rewound per scan is shared by concurrent scans). parse() runs the statement through a parser object made in that call (R-PARSEFRESH). The census also covers process-wide state reached through the standard library: objects handed out by decimal.getcontext() and the like, calls whose purpose is to change process state (decimal.setcontext, locale.setlocale ...), and stores a module body makes at import into objects of other libraries (decimal.DefaultContext.prec = ...), which take effect per thread. Every connection owns its tables, options and errors (R-CONNECTION: new objects made in __init__, no default-argument or class-level objects); attach() does not change the ledger it is given - the list is shared with every other connection made from it (R-ATTACH attach:input); a mutable default argument that is stored or changed is shared state (census). compile() makes a Compiler of its own for every call (R-COMPILEFN): the current table, the parameters and the placeholder numbering of one statement are never visible to another. Nothing that belongs to the caller - the entries list (also when handed out by prepare() as it is), the options, a cell value given to a renderer, the compiled statement - is changed in place (R-INPUTMUT): such data is shared with other connections and threads without the package knowing."),
         'assumptions': TRUSTED_STRUCT + [
             "the call graph is over-approximated: every function of the non-front-end modules that is not import-only is "
             "treated as execution-reachable",
             "TatSu, beancount and dateutil internals perform no shared writes (summarised, not analysed)"],
-        'quick': [st.rule_shared, sxst.rule_tablecopy, sxst.rule_onceperrow, cu.rule_modconst, sxc.rule_freshcursor, st.rule_parsefresh, sxc.rule_connection, sxt.rule_attach, sxst.rule_compilefn],
+        'quick': [st.rule_shared, sxst.rule_tablecopy, sxst.rule_onceperrow, cu.rule_modconst, sxc.rule_freshcursor, st.rule_parsefresh, sxc.rule_connection, sxt.rule_attach, sxst.rule_compilefn, st.rule_inputmut],
         'thorough': [],
     },
     'C11': {
@@ -292,10 +292,10 @@ PROPS = {
             "record field, all tables registered, structure aliases consistent (R-TABLEFIELDS); meta()/entry_meta()/"
             "any_meta() rewritten to the right dictionary lookups, open/close selection from the (open, close) pair "
             "(R-METAREWRITE); getitem NULL-propagating (R-NULLSTRICT). Does not decide that beancount's getters and "
-            "convert functions compute what their names say. FROM qualifiers are applied to a copy of the connection's table, so the rows of a statement come from its own clauses only (R-TABLECOPY); getitem on a NULL container gives NULL with or without a default. attach() on terms, with and without a file name in the dsn: every class in TABLES is bound by a plain item store - replacing an earlier binding - to a table over the entries and options of this attach, and the connection's options and errors come from the same ledger (R-ATTACH). GetAttrColumn / GetItemColumn evaluate to the attribute / item they were built with and announce the dtype given; _typed_namedtuple_to_columns makes one column per annotated field, in order, published under its renamed name but reading the field itself, Optional unwrapped, generics reduced to their origin, `meta` announced as Metadata (R-TYPEDCOLS, on terms with typing's introspection stubbed). AccountsTable, CommoditiesTable and PricesTable keep beancount's own readings of the ledger - getters.get_account_open_close, get_account_types of the options, get_commodity_directives, prices.build_price_map - and their row generators walk exactly those maps (R-TABLESOURCE). Options a column accessor fixes in the calls it makes (hash_entry(..., exclude_meta=...)) are part of its recorded access path (R-ACCESSPATH call_consts)."),
+            "convert functions compute what their names say. FROM qualifiers are applied to a copy of the connection's table, so the rows of a statement come from its own clauses only (R-TABLECOPY); getitem on a NULL container gives NULL with or without a default. attach() on terms, with and without a file name in the dsn: every class in TABLES is bound by a plain item store - replacing an earlier binding - to a table over the entries and options of this attach, and the connection's options and errors come from the same ledger (R-ATTACH). GetAttrColumn / GetItemColumn evaluate to the attribute / item they were built with and announce the dtype given; _typed_namedtuple_to_columns makes one column per annotated field, in order, published under its renamed name but reading the field itself, Optional unwrapped, generics reduced to their origin, `meta` announced as Metadata (R-TYPEDCOLS, on terms with typing's introspection stubbed). AccountsTable, CommoditiesTable and PricesTable keep beancount's own readings of the ledger - getters.get_account_open_close, get_account_types of the options, get_commodity_directives, prices.build_price_map - and their row generators walk exactly those maps (R-TABLESOURCE). Options a column accessor fixes in the calls it makes (hash_entry(..., exclude_meta=...)) are part of its recorded access path (R-ACCESSPATH call_consts). Presenting the ledger does not change it: no table, accessor or renderer of the source stores into or mutates the directives, their metadata or the entries list (R-INPUTMUT)."),
         'assumptions': TRUSTED_STRUCT + TRUSTED_ABSINT[:2],
         'quick': [tb.rule_accesspath, sxt.rule_rowgen, tb.rule_tablefields, tb.rule_metarewrite, dtype.rule_dtype_columns,
-                  dtype.rule_typesafe_columns, sxst.rule_tablecopy, st.rule_shared, sxt.rule_attach, sxt.rule_typedcols, sxt.rule_tablesource],
+                  dtype.rule_typesafe_columns, sxst.rule_tablecopy, st.rule_shared, sxt.rule_attach, sxt.rule_typedcols, sxt.rule_tablesource, st.rule_inputmut],
         'thorough': [],
     },
     'C13': {
@@ -325,9 +325,9 @@ PROPS = {
             "(R-EXHAUSTIVE); PRINT collects row.entry for exactly the rows whose filter is absent or true, in order, and "
             "hands the list unmodified to the printer (R-PRINTFILTER, 4 gate cases). The SELECT templates themselves are "
             "string constants and deliberately not matched (a frozen fragment). NOT decided: that printed entries load "
-            "back equal (beancount's printer and parser). The running balance and every other piece of state the expansions touch is private to one execution (R-SHARED), and the FROM qualifiers of all three statements are applied in the fixed order (R-CALLORDER). has_account(), the one function that looks at the directive itself, takes the accounts from getters.get_entry_accounts(context.entry), never branches on the directive type and answers TRUE or FALSE on every path (R-ENTRYFILTER): PRINT evaluates its filter on directives of every type. account_sortkey() classifies with the account types of this ledger (R-ACCTTYPES); execute_print does not hand the ledger's rounding display context to the printer (R-PRINTFILTER print:precision) - a necessary condition of losslessness, the round trip itself is not decided. What the three statements read from the ledger is decided too: every column of the entries and postings tables (the operands of a PRINT filter, of WHERE and of the JOURNAL / BALANCES templates) reads the recorded attribute path of the directive (R-ACCESSPATH), and the summary functions units / cost / value of a position or inventory are the recorded reductions of beancount's convert module (R-REDUCE). In the shell PRINT hands the compiled statement and the output file to execute_print unchanged (R-PRINTOUT)."),
+            "back equal (beancount's printer and parser). The running balance and every other piece of state the expansions touch is private to one execution (R-SHARED), and the FROM qualifiers of all three statements are applied in the fixed order (R-CALLORDER). has_account(), the one function that looks at the directive itself, takes the accounts from getters.get_entry_accounts(context.entry), never branches on the directive type and answers TRUE or FALSE on every path (R-ENTRYFILTER): PRINT evaluates its filter on directives of every type. account_sortkey() classifies with the account types of this ledger (R-ACCTTYPES); execute_print does not hand the ledger's rounding display context to the printer (R-PRINTFILTER print:precision) - a necessary condition of losslessness, the round trip itself is not decided. What the three statements read from the ledger is decided too: every column of the entries and postings tables (the operands of a PRINT filter, of WHERE and of the JOURNAL / BALANCES templates) reads the recorded attribute path of the directive (R-ACCESSPATH), and the summary functions units / cost / value of a position or inventory are the recorded reductions of beancount's convert module (R-REDUCE). In the shell PRINT hands the compiled statement and the output file to execute_print unchanged (R-PRINTOUT). The FROM / WHERE conditions of the three statements are evaluated with the operators' own semantics - BETWEEN with both bounds inclusive, comparisons as written (R-OPSEM)."),
         'assumptions': TRUSTED_STRUCT,
-        'quick': [cl.rule_fieldflow, cr.rule_exhaustive, sx.rule_printfilter, st.rule_shared, cl.rule_callorder, sx.rule_entryfilter, sxl.rule_accttypes, sxst.rule_onceperrow, tb.rule_accesspath, sxl.rule_reduce, sxsh.rule_printout],
+        'quick': [cl.rule_fieldflow, cr.rule_exhaustive, sx.rule_printfilter, st.rule_shared, cl.rule_callorder, sx.rule_entryfilter, sxl.rule_accttypes, sxst.rule_onceperrow, tb.rule_accesspath, sxl.rule_reduce, sxsh.rule_printout, evalnodes.rule_opsem],
         'thorough': [],
     },
     'C15': {
